@@ -36,7 +36,9 @@ Presets ==
       (<<>> :> Dn(1, 0)) @@ (<<"a">> :> Dn(2, 1)) @@ (<<"b">> :> Dn(0, 2)) @@ (<<"a", "a">> :> Dn(1, 1))
         @@ (<<"a", "f">> :> F(<<1, 2>>, 1, 1)) @@ (<<"b", "a">> :> F(<<3>>, 2, 0)) @@ (<<"a", "a", "f">> :> F(<<2>>, 0, 2)),
       \* tiny tree for the descriptor probes (GSpecProbe): one directory, one file with content and mtime
-      (<<>> :> Dn(0, 0)) @@ (<<"a">> :> Dn(0, 0)) @@ (<<"a", "f">> :> F(<<1, 1>>, 0, 1)) >>
+      (<<>> :> Dn(0, 0)) @@ (<<"a">> :> Dn(0, 0)) @@ (<<"a", "f">> :> F(<<1, 1>>, 0, 1)),
+      \* the same with a file that got its mode after its content (w: inline leaf under CIDv1, finding D7)
+      (<<>> :> Dn(0, 0)) @@ (<<"a">> :> Dn(0, 0)) @@ (<<"a", "f">> :> [F(<<1, 1>>, 1, 0) EXCEPT !.w = TRUE]) >>
 
 InitTree == Presets[pre]
 GInit == pre \in PresetSet /\ InitWith(InitTree) /\ hist = <<>> /\ tick = <<>>
@@ -61,7 +63,9 @@ GNext == /\ Len(hist) < Dp
          /\ UNCHANGED <<pre, tick>>
 GSpec == GInit /\ [][GNext]_gvars
 
-Out  == PrintT(<<"BEHAVIOUR", ToJson([init |-> Proj(InitTree), steps |-> hist])>>)
+\* the initial tree is handed over with the w flag: the harness builds such files content first, metadata second
+InitProj == {[p |-> q, k |-> InitTree[q].k, c |-> InitTree[q].c, m |-> InitTree[q].m, t |-> InitTree[q].t, w |-> InitTree[q].w] : q \in DOMAIN InitTree}
+Out  == PrintT(<<"BEHAVIOUR", ToJson([init |-> InitProj, steps |-> hist])>>)
 Emit == Len(hist) # Dp \/ Out
 
 (* ---- descriptor probes: Open, then two productive calls out of the calls that interact with an
@@ -69,7 +73,7 @@ Emit == Len(hist) # Dp \/ Out
    finding about descriptors is met (and reported) deterministically. ------------------------- *)
 PArgPaths == {<<"a">>, <<"a", "f">>}
 PMvDsts   == {<<<<"b">>, FALSE>>}
-PDataSet  == {<<2>>}
+PDataSet  == {<<2>>, <<2, 3, 3>>}
 FocusOps  == {"Write", "Truncate", "Rm", "Mv", "Chmod", "Touch", "FlushPath", "FdFlush"}
 GProbeNext == /\ Len(hist) < D
               /\ Next
